@@ -53,6 +53,10 @@ def fair_lists(n, rnd, full=False):
         out += [[a] for a in subs] + [[a, b] for a in subs for b in subs if a < b]
     else:
         out += [[rnd.choice(subs)] for _ in range(2)] + [[rnd.choice(subs), rnd.choice(subs)]]
+    # three to five constraints, overlapping and repeated sets included
+    k = rnd.choice([3, 3, 4, 5])
+    out.append([rnd.choice(subs[1:] or subs) for _ in range(k)])
+    out.append([list(range(n))] * k)
     return out
 
 
@@ -79,7 +83,7 @@ def run(ctx):
     for K in scope:
         n = K['n']
         for F in fair_lists(n, rnd, full=(not q and n <= 2)):
-            cases.append({'op': 'fs', 'K': K, 'F': F, 'naming': rnd.choice(['int', 'str', 'tuple']), 'shuf': rnd.randrange(1 << 30)})
+            cases.append({'op': 'fs', 'K': K, 'F': F, 'naming': rnd.choice(['int', 'str', 'tuple', 'obj']), 'shuf': rnd.randrange(1 << 30)})
             for lg in ('CTL', 'LTL', 'CTLS'):
                 for f in rnd.sample(d1[lg], 2 if q else 6):
                     cases.append({'op': 'mc', 'logic': lg, 'K': K, 'F': F, 'f': f, 'naming': rnd.choice(['int', 'str']),
@@ -109,7 +113,8 @@ def run(ctx):
     for _ in range(2500 if q else 40000):
         K, nc = gen.core_tail_kripke(rnd)
         core = list(range(nc))
-        F = rnd.choice([[], [core], [[rnd.choice(core)]], [[rnd.choice(core)], [rnd.choice(core)]], [list(range(K['n']))]])
+        F = rnd.choice([[], [core], [[rnd.choice(core)]], [[rnd.choice(core)], [rnd.choice(core)]], [list(range(K['n']))],
+                        [[rnd.choice(core)] for _ in range(rnd.choice([3, 4]))], [core, [rnd.choice(core)], core, list(range(K['n']))]])
         a, b = rnd.choice(inner), rnd.choice(inner + M0 + [('not', x) for x in inner[:8]])
         if rnd.random() < 0.5:
             a, b = b, a
@@ -118,12 +123,12 @@ def run(ctx):
             f = rnd.choice([('not', f), ('and', f, rnd.choice(M0)), ('or', rnd.choice(inner), f)])
         cases.append({'op': 'mc', 'logic': rnd.choice(['CTL', 'CTL', 'CTLS']), 'K': K, 'F': F, 'f': f, 'family': 'nested on core+tail K'})
         if rnd.random() < 0.35:
-            cases.append({'op': 'fs', 'K': K, 'F': F, 'naming': rnd.choice(['int', 'str', 'tuple']), 'shuf': rnd.randrange(1 << 30)})
+            cases.append({'op': 'fs', 'K': K, 'F': F, 'naming': rnd.choice(['int', 'str', 'tuple', 'obj']), 'shuf': rnd.randrange(1 << 30)})
     # seeded random beyond the scope
     for _ in range(600 if q else 20000):
         K = gen.rand_kripke(rnd, rnd.choice([3, 4, 4]))
         F = rnd.choice(fair_lists(K['n'], rnd))
-        cases.append({'op': 'fs', 'K': K, 'F': F, 'naming': rnd.choice(['int', 'str', 'tuple']), 'shuf': rnd.randrange(1 << 30)})
+        cases.append({'op': 'fs', 'K': K, 'F': F, 'naming': rnd.choice(['int', 'str', 'tuple', 'obj']), 'shuf': rnd.randrange(1 << 30)})
         lg = rnd.choice(['CTL', 'LTL', 'CTLS'])
         while True:
             f = gen.rand_ctl(rnd, 2) if lg == 'CTL' else ('A', gen.rand_path(rnd, 2)) if lg == 'LTL' else gen.rand_ctls_state(rnd, 2)
